@@ -11,7 +11,8 @@ META = {
                    "string with r→'1', g→'0', int(…, 2) (first atom most significant) and stores each amplitude at "
                    "that index; index_to_bitstring is the inverse convention. PURE: public methods of StateVector, "
                    "DensityMatrix, DenseOperator, SparseOperator do not mutate their operands (constructors and the "
-                   "private _normalize excepted).",
+                   "private _normalize excepted). "
+                   "TABLES-terms (Dense, Sparse, MPO): the per-site buffer is reset to identities for every term, each target slot receives its entry's operator, coeff·kron(term) is accumulated once per term.",
     "not_decided": "numerical equality with Kronecker-product constructions and dense linear algebra",
     "trusted_base": ["CPython ast", "tables in sa/rules/pure.py"],
     "assumptions": ["same aliasing assumptions as C11"],
